@@ -1,5 +1,6 @@
 import MimicProofs.Params
 import Mimic.Extracted.Params
+import MimicProofs.ParsersCode
 /-!
 # C06 — Prepared-statement parameters are bound as data, never as SQL
 -/
@@ -96,5 +97,39 @@ theorem source_facts :
 example : quoted "a' OR '1'='1".toList = "'a'' OR ''1''=''1'".toList := by decide
 example : (interp 0 "select ?, '?', ? from t".toList [quoted "?".toList, quoted "b".toList]).map Prod.fst =
     some "select '?', '?', 'b' from t".toList := by decide
+
+/-! ### the code itself (`Mimic.Extracted.ParsersCode`, regenerated from `/repo` by `harness/pytrans2.py`) -/
+
+/-- **`_read_params` of `packets.py`, translated, is the model's `readParams`** — for every packet, parameter count,
+    capability set and long-data table: the theorems of this file about `readParams` are theorems about the code -/
+theorem read_params_is_code (E : Mimic.Py.Env (List Char)) (caps cs : Nat) (valid : List Nat)
+    (hv : ∀ n, E.validType n = valid.contains n) (hE : E.decode cs [] = some E.empty) (count : Nat)
+    (buffers : Option (List (Nat × Mimic.Py.Bytes))) (r : Mimic.Py.Bytes) (hr : r.length < 2 ^ 63) :
+    Mimic.Extracted.ParsersCode.read_params E r caps cs count buffers
+      = (readParams valid (E.decode cs) (Mimic.Py.hasBit caps 27) count (MimicProofs.ParsersCode.bufFn buffers) r).map
+          MimicProofs.ParsersCode.pOut :=
+  MimicProofs.ParsersCode.read_params_eq E caps cs valid hv hE count buffers r hr
+
+/-- **code-level parameter round trip**: the translated `_read_params` decodes the block a client builds from any
+    non-empty tuple of bound parameters to exactly that tuple (names, NULLs, every integer width and signedness, strings,
+    floats) and stops exactly behind the block -/
+theorem code_params_decode_roundtrip (E : Mimic.Py.Env (List Char)) (caps cs : Nat) (valid : List Nat)
+    (hv : ∀ n, E.validType n = valid.contains n) (hE : E.decode cs [] = some E.empty)
+    (items : List Item) (names : List (List Char)) (rest : Bytes) (hne : items ≠ [])
+    (hok : ∀ i ∈ items, i.ok valid (E.decode cs) (Mimic.Py.hasBit caps 27))
+    (hnames : Mimic.Results.optAll (items.map (fun i => E.decode cs i.t.name)) = some names)
+    (hlen : (encBlock (Mimic.Py.hasBit caps 27) items ++ rest).length < 2 ^ 63) :
+    Mimic.Extracted.ParsersCode.read_params E (encBlock (Mimic.Py.hasBit caps 27) items ++ rest) caps cs items.length none
+      = some (MimicProofs.ParsersCode.pOut (names.zip (items.map (fun i => i.v)), rest)) := by
+  rw [MimicProofs.ParsersCode.read_params_eq E caps cs valid hv hE items.length none _ hlen]
+  have hb : MimicProofs.ParsersCode.bufFn none = fun _ => none := rfl
+  rw [hb, params_decode_roundtrip valid (E.decode cs) _ items names rest hne hok hnames]
+  rfl
+
+/-- the translated `_read_param_value` is the model's `readValue` -/
+theorem read_param_value_is_code (E : Mimic.Py.Env (List Char)) (r : Mimic.Py.Bytes) (cs code : Nat) (u : Bool) (nm : Bytes) :
+    (Mimic.Extracted.ParsersCode.read_param_value E r cs code u).map (fun x => (MimicProofs.ParsersCode.toPVal x.1, x.2))
+      = readValue (E.decode cs) ⟨code, u, nm⟩ r :=
+  MimicProofs.ParsersCode.read_param_value_eq E r cs code u nm
 
 end MimicProps.C06
